@@ -43,6 +43,17 @@ func (P) Monitor(c *hx.CaseRun) []hx.Failure {
 		seen[mon+class] = true
 		fs = append(fs, hx.Failure{Monitor: mon, Class: class, Site: site, Msg: msg})
 	}
+	if c.Tags["svc"] {
+		monitorSvc(c, fail)
+		return fs
+	}
+	if c.Tags["prune"] {
+		monitorPrune(c, fail)
+		return fs
+	}
+	if c.Tags["catchup"] {
+		monitorCatchup(c, fail)
+	}
 	var table [][]byte
 	lookup := func(p []byte) int {
 		for i, q := range table {
@@ -65,6 +76,7 @@ func (P) Monitor(c *hx.CaseRun) []hx.Failure {
 	var diskHead int64 = -1
 	monotone := true
 	var lastEh int64 = -1
+	oversize := false // a record with a payload larger than maxMsgSizeBytes was written through the real encoder
 
 	for i, op := range c.Ops {
 		toks := hx.Tokens(op)
@@ -79,6 +91,9 @@ func (P) Monitor(c *hx.CaseRun) []hx.Failure {
 				k = len(table) - 1
 			}
 			eh := argEh(toks)
+			if len(p) > walMaxMsgSize {
+				oversize = true
+			}
 			off += int64(8 + len(p))
 			W = append(W, wrec{k, eh, off})
 			written[k] = true
@@ -213,7 +228,11 @@ func (P) Monitor(c *hx.CaseRun) []hx.Failure {
 					if !okPrefix {
 						fail("replay_prefix", "replay-not-a-prefix", "consensus/wal.go:Decode", fmt.Sprintf("read from the first file is not a prefix of the %d records written: %s", len(W), clipS(ans)))
 					} else if clean && (len(msgs) != len(W) || term != "eof") {
-						fail("replay_complete", "synced-log-not-replayed", "consensus/wal.go:Decode", fmt.Sprintf("flushed undamaged log of %d records replayed as %s", len(W), clipS(ans)))
+						cls := "synced-log-not-replayed"
+						if oversize {
+							cls = "wal-oversize-record-unreadable"
+						}
+						fail("replay_complete", cls, "consensus/wal.go:Encode", fmt.Sprintf("flushed undamaged log of %d records replayed as %s", len(W), clipS(ans)))
 					}
 				}
 				continue
@@ -259,6 +278,9 @@ func (P) Monitor(c *hx.CaseRun) []hx.Failure {
 			switch {
 			case expected && !found:
 				class := "marker-not-found"
+				if oversize {
+					class = "wal-oversize-record-unreadable"
+				}
 				if !aligned && tornRotated {
 					class = "wal-search-torn-tail" // the same torn record, one file further back
 				} else if !aligned {
